@@ -127,6 +127,9 @@ var SweepSlots = [][2]string{
 	{"a ", " b\n"}, {"a", "b c\n"}, {"x \"s", "t\" y\n"}, {"x `r", "q` y\n"}, {"a b //c", "d\n"}, {"//c", "d\na b\n"},
 	{"a (\n\tb ", "\n)\n"}, {"a (\n\tb c //e", "\n)\n"}, {"a ( //f", "\n\tb\n)\n"}, {"a (\n\tb\n) //g", "\n"},
 	{"", "a b\n"}, {"a b\n", ""}, {"a b ", ""}, {"a b //c", ""}, {"a \"s\\", "t\" y\n"},
+	// inside a raw and an interpreted string of a statement that has an end-of-line comment and follows a
+	// statement that has one too (a token that came to span lines would move comments about)
+	{"a b //c\nx `r", "q` y //d\n"}, {"a b //c\nx \"s", "t\" y //d\n"}, {"a (\n\tb //c\n\t`r", "q` //d\n) //e\n"}, {"//c\na `r", "q` //d\n//e\n"},
 	// at the very start and at the very end of a file that has whole-line and end-of-line comments
 	{"", "a b\n// whole line\nc d // e\n\n// f\ng (\n\t// h\n\ti\n)\n"}, {"a b\n// whole line\nc d // e\n// f\n", ""}, {"// lead\n", "a b\n// whole\nc\n"},
 }
